@@ -1,7 +1,9 @@
 """C18 - two-component rotation and cluster alignment do what they say.
 
-Monitors (post-conditions on the real functions, wherever the call comes from):
-  eqsig.multiple.combine_at_angle   result == ns*cos(theta) + we*sin(theta)            (oracle: vf/oracles/rotation.py)
+Monitors (post-conditions on the real functions, wherever the call comes from; every oracle works on a snapshot of the
+argument values taken at call entry, never on derived caches):
+  eqsig.multiple.combine_at_angle   result == ns*cos(theta) + we*sin(theta)  (oracle: vf/oracles/rotation.py); arguments
+                                    bit-for-bit unchanged
   eqsig.multiple.compute_rotated    angles == mod(linspace(-off, 180-off, points), 360); i-th value == the measure
                                     re-evaluated on an AccSignal built from the oracle combination at the i-th angle
   Cluster.time_match                state post-condition with a pre-state snapshot of every signal: the oracle identifies
@@ -10,8 +12,9 @@ Monitors (post-conditions on the real functions, wherever the call comes from):
                                     keep its length and stay an ndarray; master untouched
   Cluster.same_start                state post-condition: master untouched, every other signal changed by a constant,
                                     section averages (read back through the public get_section_average) equal the master's
-Relations between executions (theta=0/90/180/..., theta+180 negates, half-circle end points of a scan, offset+180) are
-checked by the driver after the related calls return.
+Relations between executions (theta=0/90/180/..., theta+180 negates, half-circle end points of a scan, offset+180, first
+result intact after a second call on other data, caller arrays and twin objects untouched) are checked by the driver after
+the related calls return.
 """
 import itertools
 import math
@@ -25,61 +28,122 @@ PROP_ID = 'C18'
 TECHNIQUE = ('runtime post-condition monitors on combine_at_angle / compute_rotated / Cluster.time_match / '
              'Cluster.same_start (state post-conditions with pre-state snapshots), scalar reference oracles, constructed '
              'lags; offline relation checks between related executions')
-RULE = ('rotation cases = (ns, we, dt) pairs of gen.record classes (independent amplitudes 1e-6..1e6, 2..300 samples, Signal '
-        'or AccSignal, integer-valued records also as int64) combined at theta in {0,90,180,270,360,450,-90,-180, 37.5, random in +-360, random in +-3600} and at '
-        'every theta+180, plus scans with offset in {0,90,180,270,30,-45,random} x points in {2,3,5,7,100} x 16 measures '
-        '(pga/pgv/pgd/arias_intensity parameters; callables returning scalars and series, among them the sign-sensitive '
-        'signed max/min, one signed sample, last value of cumsum / velocity / displacement series), the triple '
-        '(offset, measure, points) enumerated cyclically. cluster cases = 2..4 equal-length slices (2*steps+3..400 samples, '
-        'steps 3..15) of one longer base record displaced by known lags; the (size, master index, lag-sign pattern in '
-        '{0,+,-}^(size-1)) space (141 patterns, i.e. every order of already-aligned and lagged signals for every master) is '
-        'enumerated cyclically, magnitudes in {1, steps-1, random}; modes: exact lags -> time_match [-> same_start], '
-        'offsets -> same_start, offsets+lags -> same_start -> time_match, lags + 1e-7 noise -> time_match; section windows '
-        'default (0,1) when it fits, else random inside the record. distinct = digest of all inputs and options; '
-        'non-trivial = components not both constant / at least one non-master signal with non-zero lag or offset.')
+RULE = ('rotation cases = (ns, we, dt) pairs: gen.record classes, amplitudes 1e-12..1e12 (independent per component), dt nice/'
+        'reciprocal/log-uniform 1e-9..1e3, 1..300 samples incl. 2**k-1, 2**k, 2**k+1 and three 70 000-sample cases per run; '
+        'every component in one of the forms float64, float32, int64/32/16/8, uint8/16 (full dtype range), lists of floats/'
+        'ints/mixed, tuple, non-contiguous and reversed views, read-only arrays; Signal or AccSignal, the same object as both '
+        'components, a twin built from the other component; combined at theta in {0,90,180,270,360,450,-90,-180, 37.5, '
+        'random in +-360, random in +-3400} and at every theta+180, theta passed as int/float/np.float64/np.int64/0-d array/'
+        'np.float32; scans with offset in {0,90,180,270,30,-45,random} x points in {2,3,5,7,100} x 16 measures (pga/pgv/pgd/'
+        'arias_intensity parameters; callables returning scalars and series, among them the sign-sensitive signed max/min, one '
+        'signed sample, last value of cumsum / velocity / displacement series), the triple (offset, measure, points) '
+        'enumerated cyclically, called by keyword, positionally and with defaults; then a history on the same objects (cache '
+        'reads, reset_values same/shorter/longer, add_constant, further combinations and a scan) and a second pair of the same '
+        'shape after which the first results are re-checked. cluster cases = 2..4 equal-length slices (2*steps+2..400 samples, '
+        'steps 1..15, 25, 40; two 70 000-sample cases) of one longer base record displaced by known lags; the (size, master '
+        'index, lag-sign pattern in {0,+,-}^(size-1)) space (141 patterns, i.e. every order of already-aligned and lagged '
+        'signals for every master) is enumerated cyclically, magnitudes in {1, steps-1, random}, every fifth case all at '
+        'exactly +-(steps-1); modes: exact lags -> time_match [-> same_start], offsets -> same_start, offsets+lags -> '
+        'same_start -> time_match, lags + 1e-7 noise -> time_match, static level 1e-9..1e6 + offsets 1e-12..1e3 -> '
+        'same_start, histories (time_match / same_start in random order with repeats, cache reads, re-lagging resets, '
+        'add_constant, length-changing resets); containers 2-D float64/float32/int/uint arrays, lists of arrays/lists/int '
+        'lists, tuples, non-contiguous row/column views, Fortran order, read-only; twin cluster from the same caller object; '
+        'a second cluster of the same shape processed afterwards with the first re-checked; every keyword of time_match / '
+        'same_start incl. defaults and boundary windows (start=0, start=end, end=T). distinct = digest of all inputs and '
+        'options; non-trivial = components not both constant / at least one non-master signal with non-zero lag or offset.')
 ASSUMPTIONS = [
     'NaN-free real records; both components have the same length and dt',
-    '|theta| <= 3600 degrees (the degree->radian rounding stays far below the 1e-12 relative allowance)',
+    '|theta| <= 3600 degrees (the degree->radian rounding stays far below the 1e-12 relative allowance); a theta handed over '
+    'as np.float32 is judged with rtol 1e-6 + 2.4e-7*|theta in rad| in a clause of its own (eqsig then evaluates cos/sin in single precision)',
     'a callable returning a series contributes its LAST value (the scan takes val[-1]); measures are deterministic',
     'the measures themselves (pga, pgv, pgd, CAV) are re-evaluated by eqsig on the oracle combination - their correctness '
     'belongs to other properties; the final Arias intensity is recomputed by the oracle',
     'time_match is judged for equal-length signals whose lag is identifiable: the residual of the best lag over the full '
     'overlap is below half the residual of every other lag |L|<steps over the interior window [steps, n-steps); periodic, '
     'constant and edge-only signals are counted as observations, not judged',
+    'integer records of every width (values using most of the dtype range, int64 up to 2**40) are in the domain and judged '
+    'by the ordinary clauses',
     'the clause time_match.pad=edge-sample is taken from the comments in the source ("pad with initial/final value"), '
     'not from the property statement',
     'same_start is judged for windows 0 <= start <= end <= (n-1)*dt; the section average is whatever the public '
     'get_section_average(start, end) returns',
+    'compute_rotated with points < 2 and float32 offsets are not driven (the half circle needs two points)',
+    'a cluster handed over as float32 stays float32 inside eqsig; same_start is then judged with 1e-5 instead of 1e-12 '
+    '(time_match and the rotation functions are judged as for float64: shifts are exact, rotation promotes to float64)',
 ]
 MIN_EVALS = {
-    'quick': {'rotation==ns*cos+we*sin': 45000, 'rotation.quadrant-identities': 6000, 'rotation.theta+180-negates': 8000,
-              'scan.angles==mod(linspace)': 2000, 'scan.values==measure(combination)': 2000,
-              'scan.half-circle-endpoints': 1200, 'scan.offset+180-relation': 600,
-              'time_match.lag-removed(L>0)': 500, 'time_match.lag-removed(L<0)': 500, 'time_match.lag-removed(L=0)': 500,
-              'time_match.lag0-after-lagged-unchanged': 200, 'time_match.overlap==master': 850,
-              'time_match.values-are-arrays': 2200, 'time_match.length-unchanged': 2200,
-              'time_match.master-unchanged': 600,
-              'same_start.section-average==master': 1300, 'same_start.master-unchanged': 450,
-              'same_start.shift-is-constant': 1300},
-    'thorough': {'rotation==ns*cos+we*sin': 850000, 'rotation.quadrant-identities': 120000,
-                 'rotation.theta+180-negates': 165000, 'scan.angles==mod(linspace)': 42000,
-                 'scan.values==measure(combination)': 42000, 'scan.half-circle-endpoints': 24000,
-                 'scan.offset+180-relation': 12000,
-                 'time_match.lag-removed(L>0)': 10000, 'time_match.lag-removed(L<0)': 10000,
-                 'time_match.lag-removed(L=0)': 10000, 'time_match.lag0-after-lagged-unchanged': 4000,
-                 'time_match.overlap==master': 16000, 'time_match.values-are-arrays': 44000,
-                 'time_match.length-unchanged': 44000, 'time_match.master-unchanged': 12000,
-                 'same_start.section-average==master': 27000, 'same_start.master-unchanged': 10000,
-                 'same_start.shift-is-constant': 27000},
+    'quick': {
+        'cluster.caller-arrays-unchanged': 1100,
+        'cluster.first-result-intact-after-second-call': 320,
+        'cluster.twin-unaffected': 330,
+        'rotation.arguments-unchanged': 75000,
+        'rotation.caller-arrays-unchanged': 750,
+        'rotation.first-result-intact-after-second-call': 740,
+        'rotation.quadrant-identities': 7400,
+        'rotation.result-is-AccSignal(dt,npts)': 72000,
+        'rotation.theta+180-negates': 8900,
+        'rotation==ns*cos+we*sin': 70000,
+        'rotation==ns*cos+we*sin(float32-theta,single-precision-rtol)': 1700,
+        'same_start.master-unchanged': 1200,
+        'same_start.section-average==master': 3400,
+        'same_start.shift-is-constant': 3400,
+        'same_start.values-are-arrays': 1200,
+        'scan.angles==mod(linspace)': 3200,
+        'scan.half-circle-endpoints': 1400,
+        'scan.offset+180-relation': 620,
+        'scan.values==measure(combination)': 3200,
+        'time_match.lag-removed(L<0)': 850,
+        'time_match.lag-removed(L=0)': 1400,
+        'time_match.lag-removed(L>0)': 850,
+        'time_match.lag-removed(|L|=steps-1)': 840,
+        'time_match.lag0-after-lagged-unchanged': 410,
+        'time_match.length-unchanged': 4500,
+        'time_match.master-unchanged': 1200,
+        'time_match.overlap==master': 2000,
+        'time_match.pad=edge-sample': 1700,
+        'time_match.values-are-arrays': 4500,
+    },
+    'thorough': {
+        'cluster.caller-arrays-unchanged': 20000,
+        'cluster.first-result-intact-after-second-call': 6000,
+        'cluster.twin-unaffected': 6000,
+        'rotation.arguments-unchanged': 1400000,
+        'rotation.caller-arrays-unchanged': 15000,
+        'rotation.first-result-intact-after-second-call': 14000,
+        'rotation.quadrant-identities': 140000,
+        'rotation.result-is-AccSignal(dt,npts)': 1300000,
+        'rotation.theta+180-negates': 170000,
+        'rotation==ns*cos+we*sin': 1300000,
+        'rotation==ns*cos+we*sin(float32-theta,single-precision-rtol)': 35000,
+        'same_start.master-unchanged': 22000,
+        'same_start.section-average==master': 61000,
+        'same_start.shift-is-constant': 61000,
+        'same_start.values-are-arrays': 22000,
+        'scan.angles==mod(linspace)': 65000,
+        'scan.half-circle-endpoints': 29000,
+        'scan.offset+180-relation': 12000,
+        'scan.values==measure(combination)': 65000,
+        'time_match.lag-removed(L<0)': 15000,
+        'time_match.lag-removed(L=0)': 27000,
+        'time_match.lag-removed(L>0)': 15000,
+        'time_match.lag-removed(|L|=steps-1)': 16000,
+        'time_match.lag0-after-lagged-unchanged': 7800,
+        'time_match.length-unchanged': 86000,
+        'time_match.master-unchanged': 23000,
+        'time_match.overlap==master': 38000,
+        'time_match.pad=edge-sample': 31000,
+        'time_match.values-are-arrays': 86000,
+    },
 }
 EXHAUSTIVE = {'quick': 'every (cluster size 2..4, master index, lag-sign pattern in {0,+,-}^(size-1)) = 141 patterns, each '
-                       'visited >= 10 times; every (offset kind, measure, points) triple of the scan',
-              'thorough': 'the same 141 patterns, each visited >= 200 times; every (offset kind, measure, points) triple'}
+                       'visited 16 times (the scan triples (offset kind, measure, points) are enumerated cyclically, not claimed complete)',
+              'thorough': 'the same 141 patterns, each visited 284 times'}
 
 RTOL_ROT = 1e-12      # rotation formula, relative to |ns_i| + |we_i|
 RTOL_MEASURE = 1e-9   # measure of the real combination vs measure of the oracle combination (well-conditioned scale)
 ATOL_ANGLE = 1e-9     # degrees, on the circle
 RTOL_AVG = 1e-12      # section averages / constancy of the shift, relative to max|x|
+RTOL_AVG_F32 = 1e-5   # the same for clusters stored in single precision (eqsig keeps a float32 record in float32)
 G = 9.81
 
 CTX = None
@@ -91,10 +155,74 @@ QUADRANT = {0: (1, 'ns'), 90: (1, 'we'), 180: (-1, 'ns'), 270: (-1, 'we'), 360: 
             -90: (-1, 'we'), -180: (-1, 'ns')}
 OFFSET_KINDS = [0, 90, 180, 270, 30, -45, 'random']
 POINTS = [2, 5, 100, 3, 7]
+INT_FORMS = {'i64': 'int64', 'i32': 'int32', 'i16': 'int16', 'i8': 'int8', 'u8': 'uint8', 'u16': 'uint16'}
+
+
+def rtol_rot_f32(theta_deg):
+    """theta handed over as np.float32: eqsig converts to radians and evaluates cos/sin in single precision, i.e. an
+    absolute error of about eps32 * (1 + |theta in rad|) in cos and sin."""
+    return 1e-6 + 2.4e-7 * abs(math.radians(float(theta_deg)))
 
 
 def n_shards(tier):
     return 16
+
+
+# ------------------------------------------------------------------------------------------------ containers / dtypes
+def int_range(form):
+    ii = np.iinfo(INT_FORMS[form])
+    return max(int(ii.min), -2 ** 40), min(int(ii.max), 2 ** 40)
+
+
+def apply_form(v, form):
+    """The exact float64 values v handed over in another container / dtype (v is representable in that form)."""
+    v = np.asarray(v, dtype=float)
+    if form in INT_FORMS:
+        return np.round(v).astype(INT_FORMS[form])
+    if form == 'f32':
+        return v.astype(np.float32)
+    if form == 'list-float':
+        return [float(x) for x in v]
+    if form == 'list-int':
+        return [int(x) for x in v]
+    if form == 'tuple-float':
+        return tuple(float(x) for x in v)
+    if form == 'mixed-list':
+        return [int(x) if i % 2 else float(x) for i, x in enumerate(v)]
+    if form == 'noncontig':
+        big = np.zeros(2 * len(v))
+        big[::2] = v
+        return big[::2]
+    if form == 'reversed-view':
+        return v[::-1].copy()[::-1]
+    if form == 'readonly':
+        w = v.copy()
+        w.flags.writeable = False
+        return w
+    return v.copy()
+
+
+def snapshot(container):
+    return np.array(container, copy=True)
+
+
+def unchanged(container, snap):
+    now = np.asarray(container)
+    return now.dtype == snap.dtype and now.shape == snap.shape and bool(np.array_equal(now, snap))
+
+
+def angle_obj(th, form):
+    if form == 'int':
+        return int(th)
+    if form == 'np.int64':
+        return np.int64(int(th))
+    if form == 'np.float64':
+        return np.float64(th)
+    if form == '0d':
+        return np.array(float(th))
+    if form == 'np.float32':
+        return np.float32(th)
+    return float(th)
 
 
 # ------------------------------------------------------------------------------------------------ measures
@@ -207,14 +335,31 @@ def _rot_witness(ns, we, dt, **kw):
     return d
 
 
+def _pre_rot(args, kwargs):
+    """Snapshot of both components' values at call entry (raw dtype)."""
+    try:
+        ns = _arg(args, kwargs, 0, 'acc_sig_ns')
+        we = _arg(args, kwargs, 1, 'acc_sig_we')
+        return np.array(ns.values, copy=True), np.array(we.values, copy=True)
+    except Exception:
+        return None
+
+
+def _check_purity(ctx, ns, we, pre, call):
+    okk = unchanged(ns.values, pre[0]) and unchanged(we.values, pre[1])
+    ctx.check(okk, 'rotation.arguments-unchanged',
+              lambda: _rot_witness(pre[0], pre[1], ns.dt, call=call),
+              '%s changed the values (or dtype) of one of its component signals' % call)
+
+
 def _post_combine(args, kwargs, result, pre):
     ctx = CTX
     ns = _arg(args, kwargs, 0, 'acc_sig_ns')
     we = _arg(args, kwargs, 1, 'acc_sig_we')
     angle = _arg(args, kwargs, 2, 'angle')
     try:
-        a = np.asarray(ns.values, dtype=float)
-        b = np.asarray(we.values, dtype=float)
+        a = np.asarray(pre[0], dtype=float)
+        b = np.asarray(pre[1], dtype=float)
         th = float(angle)
     except Exception:
         ctx.observe('combine_at_angle.out-of-domain-call')
@@ -223,13 +368,16 @@ def _post_combine(args, kwargs, result, pre):
             or not (np.all(np.isfinite(a)) and np.all(np.isfinite(b))):
         ctx.observe('combine_at_angle.out-of-domain-call')
         return
+    single = isinstance(angle, (np.floating, np.ndarray)) and getattr(angle, 'dtype', np.dtype(float)).itemsize < 8
+    rtol = rtol_rot_f32(th) if single else RTOL_ROT
+    clause = 'rotation==ns*cos+we*sin(float32-theta,single-precision-rtol)' if single else 'rotation==ns*cos+we*sin'
     ref = np.array(O.combine(a.tolist(), b.tolist(), th))
     sc = np.array(O.combine_scale(a.tolist(), b.tolist()))
     got = getattr(result, 'values', None)
-    okk = isinstance(got, np.ndarray) and got.shape == ref.shape and tol.close(got, ref, scale=sc, rtol=RTOL_ROT)
-    ctx.check(okk, 'rotation==ns*cos+we*sin',
+    okk = isinstance(got, np.ndarray) and got.shape == ref.shape and tol.close(got, ref, scale=sc, rtol=rtol)
+    ctx.check(okk, clause,
               lambda: _rot_witness(a, b, ns.dt, call='combine_at_angle', angle=th, got=np.asarray(got), expected=ref),
-              'combine_at_angle(theta=%r): %s' % (th, tol.describe(np.asarray(got), ref, scale=sc, rtol=RTOL_ROT)
+              'combine_at_angle(theta=%r): %s' % (angle, tol.describe(np.asarray(got), ref, scale=sc, rtol=rtol)
                                                   if isinstance(got, np.ndarray) else 'values is %s' % type(got).__name__))
     import eqsig
     ctx.check(isinstance(result, eqsig.AccSignal) and result.dt == ns.dt and result.npts == a.size,
@@ -237,6 +385,7 @@ def _post_combine(args, kwargs, result, pre):
               lambda: _rot_witness(a, b, ns.dt, call='combine_at_angle', angle=th),
               'combine_at_angle returned %s dt=%r npts=%r (components dt=%r npts=%d)'
               % (type(result).__name__, getattr(result, 'dt', None), getattr(result, 'npts', None), ns.dt, a.size))
+    _check_purity(ctx, ns, we, pre, 'combine_at_angle')
 
 
 def _post_scan(args, kwargs, result, pre):
@@ -248,15 +397,21 @@ def _post_scan(args, kwargs, result, pre):
     parameter = _arg(args, kwargs, 3, 'parameter', None)
     func = _arg(args, kwargs, 4, 'func', None)
     points = _arg(args, kwargs, 5, 'points', 100)
-    a = np.asarray(ns.values, dtype=float)
-    b = np.asarray(we.values, dtype=float)
+    try:
+        a = np.asarray(pre[0], dtype=float)
+        b = np.asarray(pre[1], dtype=float)
+        offf = float(off)
+    except Exception:
+        ctx.observe('compute_rotated.out-of-domain-call')
+        return
     dt = ns.dt
-    if (not isinstance(points, (int, np.integer))) or points < 2 or not math.isfinite(float(off)) or abs(float(off)) > 3600 \
+    if (not isinstance(points, (int, np.integer))) or points < 2 or not math.isfinite(offf) or abs(offf) > 3600 \
+            or (isinstance(off, np.floating) and off.dtype.itemsize < 8) \
             or not (np.all(np.isfinite(a)) and np.all(np.isfinite(b))):
         ctx.observe('compute_rotated.out-of-domain-call')
         return
     points = int(points)
-    wit = lambda **kw: _rot_witness(a, b, dt, call='compute_rotated', offset=float(off), points=points,
+    wit = lambda **kw: _rot_witness(a, b, dt, call='compute_rotated', offset=offf, points=points,
                                     parameter=parameter, func=getattr(func, '__name__', None) if func is not None else None,
                                     **kw)
     try:
@@ -266,7 +421,7 @@ def _post_scan(args, kwargs, result, pre):
     except Exception:
         ctx.violation('scan.angles==mod(linspace)', wit(), 'compute_rotated did not return (angles, values)')
         return
-    ref_deg = O.scan_angles(off, points)
+    ref_deg = O.scan_angles(offf, points)
     ok_a = degrees.shape == (points,) and bool(np.all((degrees >= 0) & (degrees <= 360)))
     worst = 0.0
     if ok_a:
@@ -277,9 +432,10 @@ def _post_scan(args, kwargs, result, pre):
               % (off, points, degrees[:4].tolist(), ref_deg[:4], worst))
     # i-th value == measure of the combination at the i-th requested angle
     refs = []
+    al, bl = a.tolist(), b.tolist()
     with attach.paused():
         for th in ref_deg:
-            refs.append(_measure_of(eqsig, O.combine(a.tolist(), b.tolist(), th), dt, parameter, func))
+            refs.append(_measure_of(eqsig, O.combine(al, bl, th), dt, parameter, func))
     try:
         refs = np.array([float(r) for r in refs])
         got = np.array([float(v) for v in pvalues.tolist()]) if pvalues.ndim == 1 else None
@@ -297,6 +453,7 @@ def _post_scan(args, kwargs, result, pre):
               % (off, points, parameter if parameter is not None else getattr(func, '__name__', func),
                  tol.describe(got, refs, scale=scale, rtol=RTOL_MEASURE) if got is not None else 'values shape %s'
                  % (pvalues.shape,)))
+    _check_purity(ctx, ns, we, pre, 'compute_rotated')
 
 
 # ------------------------------------------------------------------------------------------------ cluster monitors
@@ -305,16 +462,18 @@ def _pre_cluster(args, kwargs):
     sigs = [c.signal_by_index(i) for i in range(len(c.signals))]
     return {'values': [np.array(s.values, dtype=float, copy=True) for s in sigs],
             'npts': [s.npts for s in sigs], 'master': c.master_index, 'dt': c.dt,
-            'stypes': [type(s).__name__ for s in sigs]}
+            'stypes': [type(s).__name__ for s in sigs],
+            'dtypes': [str(getattr(s.values, 'dtype', type(s.values).__name__)) for s in sigs]}
 
 
 def _cluster_witness(pre, op, kwargs, **kw):
     if CURRENT is not None:
         d = dict(CURRENT)
-        d['failing'] = dict(kw, op=op, kwargs=dict(kwargs))
+        d['failing'] = dict(kw, op=op, kwargs={k: (int(v) if isinstance(v, np.integer) else v) for k, v in kwargs.items()})
         return d
     d = {'kind': 'cluster-state', 'values': pre['values'], 'dt': pre['dt'], 'master_index': pre['master'],
-         'stypes': ['acc' if t == 'AccSignal' else 'custom' for t in pre['stypes']], 'op': op, 'kwargs': dict(kwargs)}
+         'stypes': ['acc' if t == 'AccSignal' else 'custom' for t in pre['stypes']], 'op': op, 'kwargs': dict(kwargs),
+         'dtypes': pre['dtypes']}
     d.update(kw)
     return d
 
@@ -348,10 +507,11 @@ def _post_time_match(args, kwargs, result, pre):
     ctx.check(np.array_equal(aft[m], vals[m]), 'time_match.master-unchanged', lambda: wit(signal=m),
               'time_match changed the master signal (index %d)' % m)
     lagged_before = False
+    ml = vals[m].tolist()
     for i in range(nsig):
         if i == m:
             continue
-        L, exact = O.identify_lag(vals[m].tolist(), vals[i].tolist(), steps)
+        L, exact = O.identify_lag(ml, vals[i].tolist(), steps)
         if L is None:
             ctx.observe('time_match.' + exact)
             continue
@@ -360,9 +520,13 @@ def _post_time_match(args, kwargs, result, pre):
         lo, hi = O.overlap_after_removal(n, L)
         kind = 'L>0' if L > 0 else ('L<0' if L < 0 else 'L=0')
         ok_shift = np.array_equal(aft[i][lo:hi], vals[i][lo + L:hi + L])
-        ctx.check(ok_shift, 'time_match.lag-removed(%s)' % kind, lambda: wit(signal=i, lag=L, exact=exact),
-                  'time_match(steps=%d), master %d: signal %d lags the master by %d samples; afterwards it is not its own '
-                  'samples shifted by that lag on [%d, %d)' % (steps, m, i, L, lo, hi))
+        ctx.check(ok_shift, 'time_match.lag-removed(%s)' % kind,
+                  lambda: wit(signal=i, lag=L, exact=exact, dtype=pre['dtypes'][i]),
+                  'time_match(steps=%d), master %d, dtype %s: signal %d lags the master by %d samples; afterwards it is not its '
+                  'own samples shifted by that lag on [%d, %d)' % (steps, m, pre['dtypes'][i], i, L, lo, hi))
+        if abs(L) == steps - 1 and L != 0:
+            if ok_shift:
+                ctx.ok('time_match.lag-removed(|L|=steps-1)')      # counter only; a failure is recorded above
         if L == 0 and lagged_before:
             ctx.check(np.array_equal(aft[i], vals[i]), 'time_match.lag0-after-lagged-unchanged',
                       lambda: wit(signal=i, lag=L),
@@ -419,14 +583,15 @@ def _post_same_start(args, kwargs, result, pre):
             continue
         bmax = float(np.max(np.abs(vals[i])))
         scale = bmax + mmax
-        okk = math.isfinite(avs[i]) and abs(avs[i] - avs[m]) <= RTOL_AVG * scale
+        rt_avg = RTOL_AVG_F32 if 'float32' in (pre['dtypes'][i], pre['dtypes'][m]) else RTOL_AVG
+        okk = math.isfinite(avs[i]) and abs(avs[i] - avs[m]) <= rt_avg * scale
         ctx.check(okk, 'same_start.section-average==master',
-                  lambda: wit(signal=i, average=avs[i], master_average=avs[m], allowed=RTOL_AVG * scale),
+                  lambda: wit(signal=i, average=avs[i], master_average=avs[m], allowed=rt_avg * scale),
                   'same_start(start=%r, end=%r), %d signals, master %d: section average of signal %d is %r, the master\'s '
                   'is %r (|diff| %.3g > %.3g)' % (start, end, nsig, m, i, avs[i], avs[m], abs(avs[i] - avs[m]),
-                                                   RTOL_AVG * scale))
+                                                   rt_avg * scale))
         defined, shift, spread = O.constant_shift(vals[i].tolist(), aft[i].tolist())
-        allowed = RTOL_AVG * (bmax + abs(shift))
+        allowed = rt_avg * (bmax + abs(shift))
         ctx.check(defined and spread <= allowed, 'same_start.shift-is-constant',
                   lambda: wit(signal=i, shift=shift, spread=spread, allowed=allowed),
                   'same_start changed signal %d by something other than a constant (spread of after-before %.3g > %.3g, '
@@ -443,63 +608,246 @@ def install(ctx):
     if getattr(install, '_done', False):
         return
     mm = eqsig.multiple
-    attach.wrap(mm, 'combine_at_angle', _post_combine)
-    attach.wrap(mm, 'compute_rotated', _post_scan)
+    attach.wrap(mm, 'combine_at_angle', _post_combine, pre=_pre_rot)
+    attach.wrap(mm, 'compute_rotated', _post_scan, pre=_pre_rot)
     attach.wrap_method(mm.Cluster, 'time_match', _post_time_match, pre=_pre_cluster)
     attach.wrap_method(mm.Cluster, 'same_start', _post_same_start, pre=_pre_cluster)
     install._done = True
 
 
 # ------------------------------------------------------------------------------------------------ rotation workload
-def _mk_sig(eqsig, v, dt, kind):
-    return eqsig.AccSignal(v, dt) if kind == 'acc' else eqsig.Signal(v, dt)
+VEC_FORMS = ['f64', 'f64', 'f64', 'f64', 'f32', 'i64', 'i32', 'i16', 'i8', 'u8', 'u16', 'list-float', 'list-int',
+             'tuple-float', 'mixed-list', 'noncontig', 'reversed-view', 'readonly']
+ROT_LENGTHS = [1, 2, 3, 5, 15, 16, 17, 31, 32, 33, 63, 64, 65, 127, 128, 129, 150, 255, 256, 257, 300]
+LONG_N = 70000
+ROT_LONG_CASES = (3, 500, 1000)
+SENSITIVE = ['f:signed-max', 'f:cumsum-series-last', 'f:signed-sample', 'f:velocity-series-last', 'f:signed-min',
+             'f:cumsum-list-last', 'f:displacement-series-last', 'f:cube-mean']
+
+
+def _wide_dt(rng):
+    return float(10.0 ** rng.uniform(-9, 3)) if rng.random() < 0.25 else gen.dt(rng)
+
+
+def draw_vector(rng, n, form, edge=None):
+    """Exact float64 values that the form can represent, and a class label."""
+    if form in INT_FORMS:
+        lo, hi = int_range(form)
+        x = rng.integers(lo, hi + 1, size=n).astype(float)
+        cls = 'int-' + form
+    elif form in ('list-int', 'mixed-list'):
+        x = rng.integers(-1000, 1001, size=n).astype(float)
+        cls = 'int-small'
+    else:
+        amp = float(10.0 ** rng.uniform(-12, 12)) if rng.random() < 0.35 else None
+        x, cls = gen.record(rng, n, amp=amp)
+        if edge == 'first' and n > 1:
+            x[0] = 3.0 * (np.max(np.abs(x)) or 1.0)
+        elif edge == 'last' and n > 1:
+            x[-1] = -3.0 * (np.max(np.abs(x)) or 1.0)
+        if form == 'f32':
+            x = x.astype(np.float32).astype(float)
+    return x, cls
+
+
+def _angle_form(rng, th):
+    forms = ['float', 'float', 'np.float64', '0d', 'np.float32']
+    if float(th) == int(th):
+        forms += ['int', 'int', 'np.int64']
+    return forms[int(rng.integers(len(forms)))]
+
+
+def _make_scan(rng, okind, mkey, points, pair180, style):
+    off = float(rng.uniform(-400, 400)) if okind == 'random' else float(okind)
+    off_form = 'float'
+    if okind != 'random':
+        off_form = ['float', 'int', 'np.float64', 'np.int64'][int(rng.integers(4))]
+    if style == 'defaults':      # angle_off_ns and points left at their defaults (0.0, 100)
+        off, off_form, points, okind = 0.0, 'float', 100, 0
+    return {'offset': off, 'offset_kind': str(okind), 'offset_form': off_form, 'points': int(points), 'measure': mkey,
+            'pair180': bool(pair180), 'style': style}
 
 
 def make_rotation_case(rng, k):
-    n = int(rng.choice([2, 3, 5, 17, 64, 150, 300], p=[.05, .05, .1, .2, .25, .2, .15]))
-    ns, c1 = gen.record(rng, n)
-    we, c2 = gen.record(rng, n)
-    dt = gen.dt(rng)
+    long_case = k in ROT_LONG_CASES
+    n = LONG_N + int(rng.integers(0, 3)) if long_case else int(ROT_LENGTHS[int(rng.integers(len(ROT_LENGTHS)))])
+    forms = [VEC_FORMS[int(rng.integers(len(VEC_FORMS)))] for _ in range(2)]
+    edge = [None, None, None, 'first', 'last'][int(rng.integers(5))]
+    ns, c1 = draw_vector(rng, n, forms[0], edge)
+    we, c2 = draw_vector(rng, n, forms[1], None)
+    dt = _wide_dt(rng)
+    same_object = (not long_case) and rng.random() < 0.06
+    twin = (not same_object) and rng.random() < 0.1
+    if same_object:
+        we, forms[1], c2 = ns, forms[0], c1
     r1 = float(np.round(rng.uniform(-360, 360), 3))
     r2 = float(rng.uniform(-3400, 3400))
     base_angles = [float(a) for a in SPECIAL_ANGLES] + [37.5, r1, r2]
-    angles = []
+    if long_case:
+        base_angles = [0.0, 90.0, r1]
+    angles, aforms = [], []
     for a in base_angles:
-        for x in (a, a + 180.0):
+        f = _angle_form(rng, a)
+        if f == 'np.float32':
+            a = float(np.float32(a))
+        for x, fx in ((a, f), (a + 180.0, _angle_form(rng, a + 180.0))):
+            if fx == 'np.float32':
+                fx = 'float' if float(np.float32(x)) != x else fx
             if x not in angles:
                 angles.append(x)
+                aforms.append(fx)
     # scans: the (offset kind, measure, points) triple is enumerated by the case index
     mkeys = sorted(MEASURES)
     okind = OFFSET_KINDS[k % len(OFFSET_KINDS)]
     mkey = mkeys[(k // len(OFFSET_KINDS)) % len(mkeys)]
     points = POINTS[(k // (len(OFFSET_KINDS) * len(mkeys))) % len(POINTS)]
-    off = float(rng.uniform(-400, 400)) if okind == 'random' else float(okind)
-    if n > 64 and points == 100 and rng.random() < 0.5:
-        n_keep = 64
-        ns, we = ns[:n_keep], we[:n_keep]
-    scans = [{'offset': off, 'offset_kind': str(okind), 'points': points, 'measure': mkey, 'pair180': bool(k % 2 == 0),
-              'positional': bool(k % 3 == 0)}]
+    style = ['kw', 'positional', 'kw', 'defaults' if n <= 64 and k % 12 == 7 else 'kw'][k % 4]
+    if long_case:
+        points, style = 2, 'kw'
+    if n > 64 and points == 100 and not long_case and rng.random() < 0.5:
+        ns, we = ns[:64], we[:64]
+        n = 64
+    scans = [_make_scan(rng, okind, mkey, points, k % 2 == 0 and not long_case, style)]
     # a second, cheap scan with a sign-sensitive callable so that every case carries one
-    sens = ['f:signed-max', 'f:cumsum-series-last', 'f:signed-sample', 'f:velocity-series-last', 'f:signed-min',
-            'f:cumsum-list-last', 'f:displacement-series-last', 'f:cube-mean']
     okind2 = OFFSET_KINDS[(k // 3) % len(OFFSET_KINDS)]
-    off2 = float(rng.uniform(-400, 400)) if okind2 == 'random' else float(okind2)
-    scans.append({'offset': off2, 'offset_kind': str(okind2), 'points': [5, 2, 3, 7][(k // 21) % 4],
-                  'measure': sens[(k // 5) % len(sens)], 'pair180': bool(k % 2 == 1), 'positional': False})
+    scans.append(_make_scan(rng, okind2, SENSITIVE[(k // 5) % len(SENSITIVE)], 2 if long_case else [5, 2, 3, 7][(k // 21) % 4],
+                            k % 2 == 1 and not long_case, 'kw'))
     types = [['acc', 'acc'], ['sig', 'acc'], ['acc', 'sig'], ['sig', 'sig']][int(rng.integers(4))]
-    # integer-valued records are sometimes handed over as int64 arrays
-    as_int = [bool(np.all(v == np.round(v)) and np.max(np.abs(v)) < 2 ** 40 and rng.random() < 0.5) for v in (ns, we)]
-    return {'kind': 'rotation', 'ns': ns, 'we': we, 'dt': dt, 'types': types, 'as_int': as_int, 'angles': angles,
-            'scans': scans, 'classes': [c1, c2]}
+    case = {'kind': 'rotation', 'ns': ns, 'we': we, 'dt': dt, 'types': types, 'forms': forms, 'same_object': bool(same_object),
+            'twin': bool(twin), 'angles': angles, 'angle_forms': aforms, 'scans': scans, 'classes': [c1, c2], 'edge': edge}
+    # a second pair of the same shape (process-wide state) and a history on the same objects
+    if not long_case:
+        s_ns, _ = draw_vector(rng, n, 'f64')
+        s_we, _ = draw_vector(rng, n, 'f64')
+        case['second'] = {'ns': s_ns, 'we': s_we}
+    if not long_case and rng.random() < 0.5:
+        n2 = [n, n, max(1, n // 2), n + int(rng.integers(1, 9))][int(rng.integers(4))]
+        hf = [VEC_FORMS[int(rng.integers(len(VEC_FORMS)))] for _ in range(2)]
+        h_ns, _ = draw_vector(rng, n2, hf[0])
+        h_we, _ = draw_vector(rng, n2, hf[1])
+        rh = float(np.round(rng.uniform(-360, 360), 2))
+        const = float(rng.normal()) * float(np.max(np.abs(h_ns)) or 1.0) if hf[0] not in INT_FORMS else float(rng.integers(-5, 6))
+        case['history'] = {'reads': [['pga', 'velocity', 'pgv', 'displacement', 'fa_spectrum'][int(i)]
+                                     for i in rng.integers(0, 5, size=2)],
+                           'reset': {'ns': h_ns, 'we': h_we, 'forms': hf},
+                           'angles': [float(SPECIAL_ANGLES[int(rng.integers(len(SPECIAL_ANGLES)))]), rh, rh + 180.0],
+                           'scan': _make_scan(rng, OFFSET_KINDS[int(rng.integers(len(OFFSET_KINDS)))],
+                                              SENSITIVE[int(rng.integers(len(SENSITIVE)))], 3, False, 'kw'),
+                           'add_constant': [['ns', 'we'][int(rng.integers(2))], const]}
+    return case
+
+
+def _mk_sig(eqsig, v, dt, kind):
+    return eqsig.AccSignal(v, dt) if kind == 'acc' else eqsig.Signal(v, dt)
 
 
 def _scan_call(eqsig, ns, we, sc, offset):
     m = MEASURES[sc['measure']]
+    style = sc.get('style', 'kw')
+    off = angle_obj(offset, sc.get('offset_form', 'float')) if sc.get('offset_form', 'float') != '0d' else float(offset)
     if 'parameter' in m:
-        if sc.get('positional'):
-            return eqsig.compute_rotated(ns, we, offset, m['parameter'], None, sc['points'])
-        return eqsig.compute_rotated(ns, we, angle_off_ns=offset, parameter=m['parameter'], points=sc['points'])
-    return eqsig.compute_rotated(ns, we, angle_off_ns=offset, func=m['func'], points=sc['points'])
+        if style == 'positional':
+            return eqsig.compute_rotated(ns, we, off, m['parameter'], None, sc['points'])
+        if style == 'defaults' and float(offset) == 0.0 and sc['points'] == 100:
+            return eqsig.compute_rotated(ns, we, parameter=m['parameter'])
+        return eqsig.compute_rotated(ns, we, angle_off_ns=off, parameter=m['parameter'], points=sc['points'])
+    if style == 'positional':
+        return eqsig.compute_rotated(ns, we, off, None, m['func'], sc['points'])
+    if style == 'defaults' and float(offset) == 0.0 and sc['points'] == 100:
+        return eqsig.compute_rotated(acc_sig_ns=ns, acc_sig_we=we, func=m['func'])
+    return eqsig.compute_rotated(ns, we, angle_off_ns=off, func=m['func'], points=sc['points'])
+
+
+def _combine_and_relate(eqsig, ctx, case, ns, we, angles, aforms, tag):
+    """combine_at_angle at every angle (monitored) and the relations between those executions, judged against the values
+    the components have at entry."""
+    ns_v = np.array(ns.values, dtype=float)
+    we_v = np.array(we.values, dtype=float)
+    if ns_v.shape != we_v.shape:
+        return {}
+    sc = np.abs(ns_v) + np.abs(we_v)
+    res, rt = {}, {}
+    for th, f in zip(angles, aforms):
+        try:
+            res[th] = np.array(eqsig.combine_at_angle(ns, we, angle_obj(th, f)).values, dtype=float, copy=True)
+            rt[th] = rtol_rot_f32(th) if f == 'np.float32' else RTOL_ROT
+        except Exception as e:
+            ctx.exception('rotation==ns*cos+we*sin', dict(case, failing={'call': 'combine_at_angle', 'angle': th, 'form': f,
+                                                                         'where': tag}), e)
+    comp = {'ns': ns_v, 'we': we_v}
+    for th, (sign, which) in QUADRANT.items():
+        if float(th) in res:
+            exp = sign * comp[which]
+            r = rt[float(th)]
+            ctx.check(tol.close(res[float(th)], exp, scale=sc, rtol=r), 'rotation.quadrant-identities',
+                      lambda: dict(case, failing={'relation': 'theta=%d gives %s%s' % (th, '-' if sign < 0 else '', which),
+                                                  'where': tag}),
+                      'combine_at_angle(theta=%d) != %s%s (%s): %s'
+                      % (th, '-' if sign < 0 else '', which, tag, tol.describe(res[float(th)], exp, scale=sc, rtol=r)))
+    for th in angles:
+        if th in res and (th + 180.0) in res and th + 180.0 != th:
+            r = max(rt[th], rt[th + 180.0])
+            ctx.check(tol.close(res[th + 180.0], -res[th], scale=sc, rtol=r), 'rotation.theta+180-negates',
+                      lambda: dict(case, failing={'relation': 'theta+180 negates', 'angle': th, 'where': tag}),
+                      'combine_at_angle(theta=%r+180) != -combine_at_angle(theta=%r) (%s): %s'
+                      % (th, th, tag, tol.describe(res[th + 180.0], -res[th], scale=sc, rtol=r)))
+    return res
+
+
+def _scan_and_relate(eqsig, ctx, case, ns_a, we_a, scn, tag):
+    m = MEASURES[scn['measure']]
+    sc = np.abs(np.asarray(ns_a.values, dtype=float)) + np.abs(np.asarray(we_a.values, dtype=float))
+    scale = m['scale'](sc, ns_a.dt)
+    try:
+        d0, p0 = _scan_call(eqsig, ns_a, we_a, scn, scn['offset'])
+    except Exception as e:
+        ctx.exception('scan.values==measure(combination)',
+                      dict(case, failing={'call': 'compute_rotated', 'scan': scn, 'where': tag}), e)
+        return None
+    p0f = np.asarray(p0, dtype=float)
+    if m['parity'] is not None and p0f.ndim == 1 and len(p0f) >= 2:
+        sgn = -1.0 if m['parity'] == 'odd' else 1.0
+        ctx.check(abs(p0f[-1] - sgn * p0f[0]) <= RTOL_MEASURE * scale, 'scan.half-circle-endpoints',
+                  lambda: dict(case, failing={'relation': 'last value == %+d * first value' % sgn, 'scan': scn,
+                                              'values': p0f, 'where': tag}),
+                  'compute_rotated(%s, offset=%r): value at the last angle (%r) is not %+d x the value at the first '
+                  '(%r); the angles are half a circle apart' % (scn['measure'], scn['offset'], p0f[-1], sgn, p0f[0]))
+    if scn.get('pair180') and m['parity'] is not None:
+        try:
+            d1, p1 = _scan_call(eqsig, ns_a, we_a, dict(scn, style='kw', offset_form='float'), scn['offset'] + 180.0)
+        except Exception as e:
+            ctx.exception('scan.values==measure(combination)',
+                          dict(case, failing={'call': 'compute_rotated', 'scan': scn, 'offset+180': True}), e)
+            return d0, p0
+        sgn = -1.0 if m['parity'] == 'odd' else 1.0
+        p1 = np.asarray(p1, dtype=float)
+        ctx.check(p1.shape == p0f.shape and tol.close(p1, sgn * p0f, scale=scale, rtol=RTOL_MEASURE),
+                  'scan.offset+180-relation',
+                  lambda: dict(case, failing={'relation': 'scan(offset+180) == %+d * scan(offset)' % sgn, 'scan': scn}),
+                  'compute_rotated(%s): scan with offset %r+180 is not %+d x the scan with offset %r'
+                  % (scn['measure'], scn['offset'], sgn, scn['offset']))
+    return d0, p0
+
+
+def self_history(eqsig, ctx, case, h, ns_a, we_a):
+    """History on the same objects: cache reads, reset_values, more calls, add_constant."""
+    if not h:
+        return
+    for attr in h['reads']:
+        getattr(ns_a, attr)
+        getattr(we_a, attr)
+    hf = h['reset']['forms']
+    h_ns = apply_form(h['reset']['ns'], hf[0])
+    ns_a.reset_values(h_ns)
+    if we_a is not ns_a:
+        we_a.reset_values(apply_form(h['reset']['we'], hf[1]))
+    _combine_and_relate(eqsig, ctx, case, ns_a, we_a, h['angles'], ['float'] * len(h['angles']), 'after reset_values')
+    _scan_and_relate(eqsig, ctx, case, ns_a, we_a, h['scan'], 'after reset_values')
+    which, const = h['add_constant']
+    getattr(ns_a, 'pga')
+    (ns_a if which == 'ns' else we_a).add_constant(const)
+    _combine_and_relate(eqsig, ctx, case, ns_a, we_a, [0.0, 90.0, 270.0], ['int', 'float', 'np.float64'],
+                        'after add_constant')
 
 
 def run_rotation_case(eqsig, ctx, case):
@@ -508,68 +856,69 @@ def run_rotation_case(eqsig, ctx, case):
     ns_v = np.asarray(case['ns'], dtype=float)
     we_v = np.asarray(case['we'], dtype=float)
     dt = case['dt']
+    forms = case.get('forms', ['f64', 'f64'])
     CURRENT = case
     try:
-        as_int = case.get('as_int', [False, False])
-        ns_in = np.round(ns_v).astype(np.int64) if as_int[0] else ns_v
-        we_in = np.round(we_v).astype(np.int64) if as_int[1] else we_v
+        ns_in = apply_form(ns_v, forms[0])
+        we_in = ns_in if case.get('same_object') else apply_form(we_v, forms[1])
+        snaps = [snapshot(ns_in), snapshot(we_in)]
         ns = _mk_sig(eqsig, ns_in, dt, case['types'][0])
-        we = _mk_sig(eqsig, we_in, dt, case['types'][1])
-        sc = np.abs(ns_v) + np.abs(we_v)
-        res = {}
-        for th in case['angles']:
+        if case.get('same_object'):
+            we = ns
+        elif case.get('twin'):      # built from the other component's values, then given its own record
+            we = _mk_sig(eqsig, ns.values, dt, case['types'][1])
+            we.reset_values(we_in)
+        else:
+            we = _mk_sig(eqsig, we_in, dt, case['types'][1])
+        for s, f in ((ns, forms[0]), (we, forms[1])):
+            if f == 'readonly' and isinstance(s.values, np.ndarray):
+                s.values.flags.writeable = False     # a function writing into its component would raise
+        angles = case['angles']
+        aforms = case.get('angle_forms', ['float'] * len(angles))
+        first = None
+        if angles:
             try:
-                res[th] = np.array(eqsig.combine_at_angle(ns, we, th).values, dtype=float, copy=True)
+                first = eqsig.combine_at_angle(ns, we, angle_obj(angles[0], aforms[0]))
+                first_copy = np.array(first.values, copy=True)
             except Exception as e:
-                ctx.exception('rotation==ns*cos+we*sin', dict(case, failing={'call': 'combine_at_angle', 'angle': th}), e)
-        # relations between executions
-        comp = {'ns': ns_v, 'we': we_v}
-        for th, (sign, which) in QUADRANT.items():
-            if float(th) in res:
-                exp = sign * comp[which]
-                ctx.check(tol.close(res[float(th)], exp, scale=sc, rtol=RTOL_ROT), 'rotation.quadrant-identities',
-                          lambda: dict(case, failing={'relation': 'theta=%d gives %s%s' % (th, '-' if sign < 0 else '', which)}),
-                          'combine_at_angle(theta=%d) != %s%s: %s'
-                          % (th, '-' if sign < 0 else '', which, tol.describe(res[float(th)], exp, scale=sc, rtol=RTOL_ROT)))
-        for th in case['angles']:
-            if th in res and (th + 180.0) in res and th + 180.0 != th:
-                ctx.check(tol.close(res[th + 180.0], -res[th], scale=sc, rtol=RTOL_ROT), 'rotation.theta+180-negates',
-                          lambda: dict(case, failing={'relation': 'theta+180 negates', 'angle': th}),
-                          'combine_at_angle(theta=%r+180) != -combine_at_angle(theta=%r): %s'
-                          % (th, th, tol.describe(res[th + 180.0], -res[th], scale=sc, rtol=RTOL_ROT)))
+                ctx.exception('rotation==ns*cos+we*sin', dict(case, failing={'call': 'combine_at_angle', 'angle': angles[0]}), e)
+        _combine_and_relate(eqsig, ctx, case, ns, we, angles, aforms, 'main')
         # scans (compute_rotated asserts AccSignal components)
         ns_a = eqsig.AccSignal(ns_in, dt)
-        we_a = eqsig.AccSignal(we_in, dt)
-        for scn in case['scans']:
-            m = MEASURES[scn['measure']]
-            scale = m['scale'](sc, dt)
+        we_a = ns_a if case.get('same_object') else eqsig.AccSignal(we_in, dt)
+        first_scan = None
+        for j, scn in enumerate(case['scans']):
+            r = _scan_and_relate(eqsig, ctx, case, ns_a, we_a, scn, 'main')
+            if j == 0 and r is not None:
+                first_scan = (r[0], r[1], np.array(r[0], copy=True), np.array(r[1], copy=True))
+        # history on the same objects: cache reads, reset, more calls, in-place style mutator
+        h = case.get('history')
+        try:
+            self_history(eqsig, ctx, case, h, ns_a, we_a)
+        except Exception as e:
+            ctx.exception('rotation.history-op(no-exception)', dict(case, failing={'where': 'history'}), e)
+        # a second pair of the same shape; then the first results are looked at again
+        sec = case.get('second')
+        if sec is not None and first is not None:
+            ns2 = eqsig.AccSignal(np.asarray(sec['ns'], dtype=float), dt)
+            we2 = eqsig.AccSignal(np.asarray(sec['we'], dtype=float), dt)
             try:
-                d0, p0 = _scan_call(eqsig, ns_a, we_a, scn, scn['offset'])
+                eqsig.combine_at_angle(ns2, we2, angle_obj(angles[0], aforms[0]))
+                if first_scan is not None:
+                    _scan_call(eqsig, ns2, we2, dict(case['scans'][0], style='kw', offset_form='float'),
+                               case['scans'][0]['offset'] + 17.0)      # other data AND other angles, same shape
             except Exception as e:
-                ctx.exception('scan.values==measure(combination)', dict(case, failing={'call': 'compute_rotated', 'scan': scn}), e)
-                continue
-            p0 = np.asarray(p0, dtype=float)
-            if m['parity'] is not None and p0.ndim == 1 and len(p0) >= 2:
-                sgn = -1.0 if m['parity'] == 'odd' else 1.0
-                ctx.check(abs(p0[-1] - sgn * p0[0]) <= RTOL_MEASURE * scale, 'scan.half-circle-endpoints',
-                          lambda: dict(case, failing={'relation': 'last value == %+d * first value' % sgn, 'scan': scn,
-                                                      'values': p0}),
-                          'compute_rotated(%s, offset=%r): value at the last angle (%r) is not %+d x the value at the first '
-                          '(%r); the angles are half a circle apart' % (scn['measure'], scn['offset'], p0[-1], sgn, p0[0]))
-            if scn.get('pair180') and m['parity'] is not None:
-                try:
-                    d1, p1 = _scan_call(eqsig, ns_a, we_a, scn, scn['offset'] + 180.0)
-                except Exception as e:
-                    ctx.exception('scan.values==measure(combination)',
-                                  dict(case, failing={'call': 'compute_rotated', 'scan': scn, 'offset+180': True}), e)
-                    continue
-                sgn = -1.0 if m['parity'] == 'odd' else 1.0
-                p1 = np.asarray(p1, dtype=float)
-                ctx.check(p1.shape == p0.shape and tol.close(p1, sgn * p0, scale=scale, rtol=RTOL_MEASURE),
-                          'scan.offset+180-relation',
-                          lambda: dict(case, failing={'relation': 'scan(offset+180) == %+d * scan(offset)' % sgn, 'scan': scn}),
-                          'compute_rotated(%s): scan with offset %r+180 is not %+d x the scan with offset %r'
-                          % (scn['measure'], scn['offset'], sgn, scn['offset']))
+                ctx.exception('rotation.first-result-intact-after-second-call', dict(case, failing={'call': 'second pair'}), e)
+            okk = unchanged(first.values, first_copy)
+            if first_scan is not None:
+                okk = okk and unchanged(first_scan[0], first_scan[2]) and unchanged(first_scan[1], first_scan[3])
+            ctx.check(okk, 'rotation.first-result-intact-after-second-call',
+                      lambda: dict(case, failing={'relation': 'first result intact after a second call on other data'}),
+                      'the result of the first combine_at_angle / compute_rotated call changed after calls on another pair')
+        # the caller's containers are untouched
+        ctx.check(unchanged(ns_in, snaps[0]) and unchanged(we_in, snaps[1]), 'rotation.caller-arrays-unchanged',
+                  lambda: dict(case, failing={'relation': 'caller arrays unchanged'}),
+                  'a record handed to Signal/AccSignal (%s, %s) was modified by the rotation calls' % tuple(forms))
     finally:
         CURRENT = None
 
@@ -577,19 +926,77 @@ def run_rotation_case(eqsig, ctx, case):
 # ------------------------------------------------------------------------------------------------ cluster workload
 PATTERNS = [(nsig, master, signs) for nsig in (2, 3, 4) for master in range(nsig)
             for signs in itertools.product((0, 1, -1), repeat=nsig - 1)]
-MODES = ['exact', 'samestart', 'workflow', 'exact', 'noisy']
+MODES = ['exact', 'samestart', 'workflow', 'exact', 'noisy', 'history', 'levels']
 BASE_CLASSES = ['noise', 'walk', 'quake', 'intnoise', 'chirp', 'beat', 'zeropad']
+CLUSTER_FORMS = ['array2d', 'array2d', 'array2d', 'list-of-arrays', 'list-of-lists', 'tuple-of-arrays', 'f32', 'i64', 'i32',
+                 'i16', 'i8', 'u8', 'u16', 'list-of-int-lists', 'noncontig-cols', 'noncontig-rows', 'fortran', 'readonly']
+CLUSTER_INT_FORMS = ('i64', 'i32', 'i16', 'i8', 'u8', 'u16', 'list-of-int-lists')
+CLU_LONG_CASES = {5: 'exact', 143: 'samestart'}
+CLU_LENGTHS = [31, 32, 33, 63, 64, 65, 127, 128, 129, 255, 256, 257]
+
+
+def cluster_container(vals, form):
+    """The equal-length records `vals` (exact float64 values) in the container / dtype `form`."""
+    vals = [np.asarray(v, dtype=float) for v in vals]
+    if form == 'list-of-arrays':
+        return [v.copy() for v in vals]
+    if form == 'list-of-lists':
+        return [v.tolist() for v in vals]
+    if form == 'list-of-int-lists':
+        return [[int(x) for x in v] for v in vals]
+    if form == 'tuple-of-arrays':
+        return tuple(v.copy() for v in vals)
+    if len(set(len(v) for v in vals)) != 1:
+        return [v.copy() for v in vals]
+    a = np.array(vals)
+    if form in INT_FORMS:
+        return np.round(a).astype(INT_FORMS[form])
+    if form == 'f32':
+        return a.astype(np.float32)
+    if form == 'noncontig-cols':
+        big = np.zeros((a.shape[0], 2 * a.shape[1]))
+        big[:, ::2] = a
+        return big[:, ::2]
+    if form == 'noncontig-rows':
+        big = np.zeros((2 * a.shape[0], a.shape[1]))
+        big[::2] = a
+        return big[::2]
+    if form == 'fortran':
+        return np.asfortranarray(a)
+    if form == 'readonly':
+        a.flags.writeable = False
+        return a
+    return a
+
+
+def container_snapshot(data):
+    if isinstance(data, np.ndarray):
+        return data.copy()
+    return [np.array(v, copy=True) for v in data]
+
+
+def container_unchanged(data, snap):
+    if isinstance(data, np.ndarray):
+        return unchanged(data, snap)
+    return len(data) == len(snap) and all(unchanged(v, s) for v, s in zip(data, snap))
 
 
 def _window(rng, n, dt):
-    """same_start keyword arguments: the default window (0, 1) when it fits, else a window inside the record."""
+    """same_start keyword arguments: the default window (0, 1) when it fits, boundary windows, else random inside."""
     T = (n - 1) * dt
     r = rng.random()
-    if T >= 1.0 and r < 0.4:
-        return {}
-    if r < 0.55:
+    if T >= 1.0 and r < 0.3:
+        return {} if rng.random() < 0.7 else {'base': 0}
+    if r < 0.4:
         return {'start': 0, 'end': float(rng.uniform(0, T))}
-    if r < 0.65:                      # window given in whole samples (exactly representable multiples when dt is dyadic)
+    if r < 0.47:
+        return {'start': 0.0, 'end': T}                       # the whole record, end exactly at the last sample
+    if r < 0.54:
+        x = float(rng.uniform(0, T))
+        return {'start': x, 'end': x}                         # a single sample
+    if r < 0.6 and T >= 1:
+        return {'start': 0, 'end': int(rng.integers(1, int(T) + 1)), 'verbose': 0}   # integer times
+    if r < 0.7:                      # window given in whole samples
         i0 = int(rng.integers(0, n))
         i1 = int(rng.integers(i0, n))
         return {'start': i0 * dt, 'end': min(i1 * dt, T)}
@@ -597,16 +1004,68 @@ def _window(rng, n, dt):
     return {'start': s, 'end': float(rng.uniform(s, T))}
 
 
+def _tm_kwargs(rng, steps, default_steps):
+    if default_steps:
+        return {} if rng.random() < 0.7 else {'verbose': 0}
+    r = rng.random()
+    if r < 0.7:
+        return {'steps': steps}
+    if r < 0.85:
+        return {'steps': steps, 'verbose': 0}
+    return {'steps': steps, 'set_step': False, 'trim': True}
+
+
+def _draw_steps(rng):
+    r = rng.random()
+    if r < 0.13:
+        return 10, True
+    if r < 0.21:
+        return int(rng.choice([1, 2])), False
+    if r < 0.25:
+        return int(rng.choice([25, 40])), False
+    return int(rng.integers(3, 16)), False
+
+
 def make_cluster_case(rng, k):
     nsig, master, signs = PATTERNS[k % len(PATTERNS)]
     mode = MODES[(k // len(PATTERNS)) % len(MODES)]
-    default_steps = rng.random() < 0.15
-    steps = 10 if default_steps else int(rng.integers(3, 16))
-    nmin = 2 * steps + 3 if rng.random() < 0.25 else 4 * steps + 5
-    n = int(rng.integers(nmin, 401)) if rng.random() < 0.7 else int(rng.integers(nmin, nmin + 40))
-    dt = gen.dt(rng)
-    bcls = BASE_CLASSES[int(rng.integers(len(BASE_CLASSES)))] if rng.random() < 0.75 else None
-    base, bcls = gen.record(rng, n + 2 * steps, cls=bcls, allow_const=False)
+    long_case = k in CLU_LONG_CASES
+    steps, default_steps = _draw_steps(rng)
+    form = CLUSTER_FORMS[int(rng.integers(len(CLUSTER_FORMS)))]
+    if long_case:
+        mode, steps, default_steps, form = CLU_LONG_CASES[k], 3, False, 'array2d'
+    if form in CLUSTER_INT_FORMS and mode not in ('exact', 'samestart'):
+        form = 'array2d'
+    nmin = 2 * steps + 2 if rng.random() < 0.3 else 4 * steps + 5
+    r = rng.random()
+    if long_case:
+        n = LONG_N + int(rng.integers(0, 5))
+    elif mode == 'samestart' and r < 0.08:
+        n, nmin = int(rng.integers(1, 4)), 1                  # 1-, 2-, 3-sample records (same_start only)
+    elif r < 0.25:
+        n = max(nmin, int(CLU_LENGTHS[int(rng.integers(len(CLU_LENGTHS)))]))
+    elif r < 0.75:
+        n = int(rng.integers(nmin, max(nmin + 1, 401)))
+    else:
+        n = int(rng.integers(nmin, nmin + 40))
+    dt = _wide_dt(rng)
+    # the base record
+    if form in CLUSTER_INT_FORMS:
+        lo, hi = int_range(form) if form in INT_FORMS else (-30000, 30000)
+        base = rng.integers(lo, hi + 1, size=n + 2 * steps).astype(float)
+        bcls = 'int-' + form
+    else:
+        bcls = BASE_CLASSES[int(rng.integers(len(BASE_CLASSES)))] if rng.random() < 0.75 else None
+        amp = float(10.0 ** rng.uniform(-12, 12)) if rng.random() < 0.3 else None
+        base, bcls = gen.record(rng, n + 2 * steps, cls=bcls, amp=amp, allow_const=False)
+        e = rng.random()
+        if e < 0.08:        # extreme at the master's first / last sample
+            base[steps] = 3.0 * (np.max(np.abs(base)) or 1.0)
+        elif e < 0.16:
+            base[steps + n - 1] = -3.0 * (np.max(np.abs(base)) or 1.0)
+        if form == 'f32':
+            base = base.astype(np.float32).astype(float)
+    force_edge = (k % 5 == 0)      # every non-zero lag at exactly +-(steps-1)
     lags = []
     it = iter(signs)
     for i in range(nsig):
@@ -614,22 +1073,29 @@ def make_cluster_case(rng, k):
             lags.append(0)
             continue
         s = next(it)
-        if s == 0 or (mode == 'samestart' and rng.random() < 0.5):
+        if steps == 1:
+            s = 0
+        if s == 0 or (mode in ('samestart', 'levels') and rng.random() < 0.5):
             lags.append(0 if s == 0 else None)
             continue
         r = rng.random()
-        mag = 1 if r < 0.2 else (steps - 1 if r < 0.5 else int(rng.integers(1, steps)))
+        mag = steps - 1 if (force_edge or r < 0.3) else (1 if r < 0.5 else int(rng.integers(1, steps)))
         lags.append(s * mag)
     amp = float(np.max(np.abs(base))) or 1.0
     values = []
     for i, l in enumerate(lags):
-        if l is None:     # an unrelated record (same_start mode only)
-            v, _ = gen.record(rng, n, allow_const=True)
+        if l is None:     # an unrelated record (same_start modes only)
+            if form in CLUSTER_INT_FORMS:
+                lo, hi = int_range(form) if form in INT_FORMS else (-30000, 30000)
+                v = rng.integers(lo, hi + 1, size=n).astype(float)
+            else:
+                v, _ = gen.record(rng, n, allow_const=True)
         else:             # sig_i[t] = base[steps + t - l] = master[t - l]
             v = base[steps - l: steps + n - l].copy()
         values.append(v)
     ops = []
-    tm_kw = {} if default_steps else {'steps': steps}
+    tm_kw = _tm_kwargs(rng, steps, default_steps)
+    can_tm = n >= 2 * steps + 2
     if mode == 'exact':
         ops.append(['time_match', tm_kw])
         if rng.random() < 0.5:
@@ -638,36 +1104,103 @@ def make_cluster_case(rng, k):
         for i in range(nsig):
             values[i] = values[i] + 1e-7 * amp * rng.normal(size=n)
         ops.append(['time_match', tm_kw])
-    else:
+    elif mode == 'levels':
+        # a static level 1e-9..1e6 carrying a signal, plus offsets from 1e-12 to 1e3 (relative 1e-10..1e-5 half of the time)
+        level = float(rng.choice([-1.0, 1.0])) * float(10.0 ** rng.uniform(-9, 6))
+        a = abs(level) * float(10.0 ** rng.uniform(-6, 0)) if rng.random() < 0.6 else float(10.0 ** rng.uniform(-12, 3))
         for i in range(nsig):
-            if rng.random() < 0.85:
-                values[i] = values[i] + float(rng.normal()) * amp * float(rng.choice([0.01, 1.0, 30.0]))
+            if rng.random() < 0.5:
+                off = abs(level) * float(10.0 ** rng.uniform(-10, -5))
+            else:
+                off = float(10.0 ** rng.uniform(-12, 3))
+            off *= float(rng.choice([-1.0, 1.0]))
+            values[i] = level + a * (values[i] / (float(np.max(np.abs(values[i]))) or 1.0)) + (off if i != master or rng.random() < 0.5 else 0.0)
         ops.append(['same_start', _window(rng, n, dt)])
-        if mode == 'workflow':
+    elif mode == 'history':
+        ops.append(['time_match', tm_kw])
+        n_ops = int(rng.integers(3, 8))
+        for _ in range(n_ops):
+            r = rng.random()
+            i = int(rng.integers(nsig))
+            if r < 0.25:
+                ops.append(['time_match', _tm_kwargs(rng, steps, default_steps)])
+            elif r < 0.45:
+                ops.append(['same_start', _window(rng, n, dt)])
+            elif r < 0.6:
+                ops.append(['sig.read', i, ['pga', 'velocity', 'fa_spectrum', 'npts', 'pgv'][int(rng.integers(5))]])
+            elif r < 0.85 and steps > 1:
+                l2 = int(rng.integers(-steps + 1, steps))
+                ops.append(['sig.reset_values', i, base[steps - l2: steps + n - l2].copy()])
+            else:
+                ops.append(['sig.add_constant', i, float(rng.normal()) * amp * float(rng.choice([1e-3, 1.0]))])
+        if rng.random() < 0.4:      # a length-changing reset; afterwards only same_start windows inside the shortest record
+            i = int(rng.integers(nsig))
+            n2 = max(2, n - int(rng.integers(1, 6))) if rng.random() < 0.5 else n + int(rng.integers(1, 6))
+            newv, _ = gen.record(rng, n2, allow_const=True)
+            ops.append(['sig.reset_values', i, newv])
+            ops.append(['sig.read', i, 'npts'])
+            ops.append(['same_start', _window(rng, min(n, n2), dt)])
+            ops.append(['same_start', _window(rng, min(n, n2), dt)])
+    else:       # samestart / workflow
+        if form not in CLUSTER_INT_FORMS:
+            for i in range(nsig):
+                if rng.random() < 0.85:
+                    values[i] = values[i] + float(rng.normal()) * amp * float(rng.choice([1e-9, 0.01, 1.0, 30.0, 1e6]))
+        ops.append(['same_start', _window(rng, n, dt)])
+        if mode == 'workflow' and can_tm:
             ops.append(['time_match', tm_kw])
         elif rng.random() < 0.3:
             ops.append(['same_start', _window(rng, n, dt)])
-    container = ['array2d', 'list-of-arrays', 'list-of-lists', 'tuple-of-arrays'][int(rng.integers(4))]
+    if not can_tm:
+        ops = [o for o in ops if o[0] != 'time_match']
+    if form == 'f32':
+        values = [v.astype(np.float32).astype(float) for v in values]
     st = rng.random()
     stypes = 'custom' if st < 0.35 else ('acc' if st < 0.7 else [str(rng.choice(['acc', 'custom'])) for _ in range(nsig)])
     names = None if rng.random() < 0.6 else ['rec%d' % i for i in range(nsig)]
-    return {'kind': 'cluster', 'values': values, 'dt': dt, 'master_index': master, 'stypes': stypes, 'names': names,
-            'container': container, 'ops': ops, 'lags': [l if l is not None else 'unrelated' for l in lags],
-            'steps': steps, 'mode': mode, 'base_class': bcls}
+    case = {'kind': 'cluster', 'values': values, 'dt': dt, 'master_index': master, 'stypes': stypes, 'names': names,
+            'container': form, 'ops': ops, 'lags': [l if l is not None else 'unrelated' for l in lags],
+            'steps': steps, 'mode': mode, 'base_class': bcls, 'steps_as_np_int': bool(rng.random() < 0.1),
+            'twin': bool(rng.random() < 0.3 and not long_case)}
+    if not long_case and rng.random() < 0.3:
+        # a second cluster of the same shape (negated lags on another base) for the process-wide-state relation
+        b2, _ = gen.record(rng, n + 2 * steps, cls='noise')
+        if form in CLUSTER_INT_FORMS:
+            b2 = rng.integers(0, 101, size=n + 2 * steps).astype(float)
+        case['second'] = [b2[steps + (l if isinstance(l, int) else 0): steps + n + (l if isinstance(l, int) else 0)].copy()
+                          for l in case['lags']]
+    return case
+
+
+def _run_ops(eqsig, ctx, case, c, ops, judged=True):
+    for op in ops:
+        name = op[0]
+        try:
+            if name == 'sig.read':
+                getattr(c.signal_by_index(int(op[1])), op[2], None)
+            elif name == 'sig.reset_values':
+                c.signal_by_index(int(op[1])).reset_values(np.array(op[2], dtype=float))
+            elif name == 'sig.add_constant':
+                c.signal_by_index(int(op[1])).add_constant(op[2])
+            else:
+                okw = dict(op[1])
+                if case.get('steps_as_np_int') and 'steps' in okw:
+                    okw['steps'] = np.int64(okw['steps'])
+                getattr(c, name)(**okw)
+                if judged:
+                    ctx.ok('%s.returns(no-exception)' % name)
+        except Exception as e:
+            clause = '%s.returns(no-exception)' % name if not name.startswith('sig.') else 'cluster.history-op(no-exception)'
+            ctx.exception(clause, dict(case, failing={'op': [o if not isinstance(o, np.ndarray) else 'array' for o in op]}), e)
+            return False
+    return True
 
 
 def run_cluster_case(eqsig, ctx, case):
     global CURRENT
     vals = [np.asarray(v, dtype=float) for v in case['values']]
-    cont = case.get('container', 'list-of-arrays')
-    if cont == 'array2d':
-        data = np.array(vals)
-    elif cont == 'list-of-lists':
-        data = [v.tolist() for v in vals]
-    elif cont == 'tuple-of-arrays':
-        data = tuple(v.copy() for v in vals)
-    else:
-        data = [v.copy() for v in vals]
+    data = cluster_container(vals, case.get('container', 'list-of-arrays'))
+    snap = container_snapshot(data)
     kw = {'master_index': int(case['master_index'])}
     if case.get('stypes') is not None:
         kw['stypes'] = case['stypes']
@@ -677,17 +1210,36 @@ def run_cluster_case(eqsig, ctx, case):
     try:
         try:
             c = eqsig.Cluster(data, case['dt'], **kw)
+            twin = eqsig.Cluster(data, case['dt'], **kw) if case.get('twin') else None
         except Exception as e:
             ctx.exception('cluster.constructs', dict(case), e)
             return
-        for op, okw in case['ops']:
-            okw = dict(okw)
+        if twin is not None:
+            twin_snap = [np.array(twin.values_by_index(i), copy=True) for i in range(len(vals))]
+        if not _run_ops(eqsig, ctx, case, c, case['ops']):
+            return
+        ctx.check(container_unchanged(data, snap), 'cluster.caller-arrays-unchanged',
+                  lambda: dict(case, failing={'relation': 'caller container unchanged'}),
+                  'the %s container handed to Cluster() was modified by %s' % (case.get('container'), [o[0] for o in case['ops']]))
+        if twin is not None:
+            ctx.check(all(unchanged(twin.values_by_index(i), twin_snap[i]) for i in range(len(vals))), 'cluster.twin-unaffected',
+                      lambda: dict(case, failing={'relation': 'twin cluster unaffected'}),
+                      'a second Cluster built from the same caller object changed when the first was processed')
+        sec = case.get('second')
+        if sec is not None:
+            held = [c.values_by_index(i) for i in range(len(vals))]
+            held_copy = [np.array(v, copy=True) for v in held]
             try:
-                getattr(c, op)(**okw)
-                ctx.ok('%s.returns(no-exception)' % op)
+                c2 = eqsig.Cluster(cluster_container(sec, case.get('container', 'list-of-arrays')), case['dt'], **kw)
             except Exception as e:
-                ctx.exception('%s.returns(no-exception)' % op, dict(case, failing={'op': op, 'kwargs': okw}), e)
-                break
+                ctx.exception('cluster.constructs', dict(case, failing={'which': 'second'}), e)
+                return
+            _run_ops(eqsig, ctx, case, c2, [o for o in case['ops'] if not o[0].startswith('sig.')])
+            okk = all(unchanged(h, hc) for h, hc in zip(held, held_copy)) and \
+                all(unchanged(c.values_by_index(i), held_copy[i]) for i in range(len(vals)))
+            ctx.check(okk, 'cluster.first-result-intact-after-second-call',
+                      lambda: dict(case, failing={'relation': 'first cluster intact after processing a second one'}),
+                      'the aligned signals of the first cluster changed while a second cluster of the same shape was processed')
     finally:
         CURRENT = None
 
@@ -698,32 +1250,37 @@ def run_shard(ctx):
     install(ctx)
     rng = ctx.rng
     n_rot = 1500 if ctx.tier == 'quick' else 30000
-    n_clu = 1500 if ctx.tier == 'quick' else 30000
+    n_clu = 16 * len(PATTERNS) if ctx.tier == 'quick' else 284 * len(PATTERNS)
     for k in core.split_range(n_clu, ctx.shard, ctx.nshards):
         case = make_cluster_case(rng, k)
         nontriv = any(l not in (0,) for i, l in enumerate(case['lags']) if i != case['master_index']) \
-            or case['mode'] in ('samestart', 'workflow')
-        ctx.case(core.digest(case['values'], case['dt'], case['master_index'], repr(case['stypes']), repr(case['ops'])),
+            or case['mode'] in ('samestart', 'workflow', 'levels', 'history')
+        ctx.case(core.digest(case['values'], case['dt'], case['master_index'], repr(case['stypes']), case['container'],
+                             repr([o[:2] for o in case['ops']])),
                  nontrivial=nontriv,
                  cls='cluster-%s-n%d-m%d' % (case['mode'], len(case['values']), case['master_index']),
                  sample={'kind': 'cluster', 'mode': case['mode'], 'n_signals': len(case['values']),
                          'master_index': case['master_index'], 'lags': case['lags'], 'steps': case['steps'],
-                         'npts': len(case['values'][0]), 'dt': case['dt'], 'ops': case['ops'],
+                         'npts': len(case['values'][0]), 'dt': case['dt'], 'container': case['container'],
+                         'ops': [[x if not isinstance(x, np.ndarray) else 'array(%d)' % len(x) for x in o] for o in case['ops']],
                          'base_class': case['base_class']})
-        ctx.observe('cluster.base-class.%s' % case['base_class'])
+        ctx.observe('cluster.container.%s' % case['container'])
+        ctx.observe('cluster.steps.%d' % case['steps'])
         run_cluster_case(eqsig, ctx, case)
         if ctx.out_of_time():
             break
     for k in core.split_range(n_rot, ctx.shard, ctx.nshards):
         case = make_rotation_case(rng, k)
         nontriv = len(set(case['ns'].tolist())) > 1 or len(set(case['we'].tolist())) > 1
-        ctx.case(core.digest(case['ns'], case['we'], case['dt'], case['angles'], repr(case['scans'])), nontrivial=nontriv,
-                 cls='rotation-%s' % case['scans'][0]['measure'],
+        ctx.case(core.digest(case['ns'], case['we'], case['dt'], case['angles'], repr(case['scans']), repr(case['forms'])),
+                 nontrivial=nontriv, cls='rotation-%s' % case['scans'][0]['measure'],
                  sample={'kind': 'rotation', 'npts': len(case['ns']), 'dt': case['dt'], 'classes': case['classes'],
-                         'angles': case['angles'][:6], 'scans': case['scans'], 'ns_head': case['ns'][:5],
-                         'we_head': case['we'][:5]})
+                         'forms': case['forms'], 'angles': case['angles'][:6], 'angle_forms': case['angle_forms'][:6],
+                         'scans': case['scans'], 'ns_head': case['ns'][:5], 'we_head': case['we'][:5]})
         for scn in case['scans']:
             ctx.observe('scan.offset-kind.%s' % scn['offset_kind'])
+        for f in case['forms']:
+            ctx.observe('rotation.form.%s' % f)
         run_rotation_case(eqsig, ctx, case)
         if ctx.out_of_time():
             break
